@@ -177,6 +177,7 @@ impl Modulator for ScriptMod {
 }
 
 pub struct Client {
+  pub last_ping: Option<u32>,
   pub stream: Option<DuplexStream>,
   pub buf: Vec<u8>,
   pub closed: bool,
@@ -277,6 +278,14 @@ async fn drain(clients: &mut BTreeMap<u64, Client>, settle_ms: u64) -> Value {
     if got {
       let mut frames = Vec::new();
       parse_frames(&mut cl.buf, &mut frames);
+      for f in frames.iter() {
+        if let Some(raw) = f.get("raw").and_then(|r| r.as_str()) {
+          let line = unhex(raw);
+          if line.starts_with(b"PING id=") {
+            cl.last_ping = std::str::from_utf8(&line[8..]).ok().and_then(|s| s.trim().parse::<u32>().ok());
+          }
+        }
+      }
       let leftover = if cl.closed && !cl.buf.is_empty() { Some(hex(&cl.buf)) } else { None };
       per.insert(k.to_string(), json!({"frames": frames, "closed": cl.closed, "leftover": leftover}));
     }
@@ -330,8 +339,14 @@ async fn run_history(c: &Value) -> Value {
   let mut tasks: HashMap<u64, tokio::task::JoinHandle<()>> = HashMap::new();
   let mut results = Vec::new();
 
+  let t0 = tokio::time::Instant::now();
   for op in c["ops"].as_array().unwrap() {
     let t = op["t"].as_str().unwrap();
+    if t == "until" {
+      // absolute virtual time (ms since the start of the history) at which the NEXT action happens
+      tokio::time::sleep_until(t0 + Duration::from_millis(op["ms"].as_u64().unwrap())).await;
+    }
+    let t_start = t0.elapsed().as_millis() as u64;
     if let Some(sc) = op.get("script").and_then(|s| s.as_array()) {
       let mut st = mod_state.lock().unwrap();
       st.script = sc.iter().cloned().collect();
@@ -350,7 +365,7 @@ async fn run_history(c: &Value) -> Value {
           mng2.run_connection(srv.compat(), f2).await;
         });
         tasks.insert(k, h);
-        clients.insert(k, Client { stream: Some(cl), buf: Vec::new(), closed: false, stalled: false });
+        clients.insert(k, Client { last_ping: None, stream: Some(cl), buf: Vec::new(), closed: false, stalled: false });
       },
       "send" => {
         let k = op["k"].as_u64().unwrap();
@@ -370,6 +385,22 @@ async fn run_history(c: &Value) -> Value {
         if let Some(cl) = clients.get_mut(&k) {
           cl.stream = None;
           cl.closed = true;
+        }
+      },
+      "until" => {},
+      "pong" => {
+        let k = op["k"].as_u64().unwrap();
+        if let Some(cl) = clients.get_mut(&k) {
+          let id = match op.get("id").and_then(|v| v.as_u64()) {
+            Some(i) => Some(i as u32),
+            None => cl.last_ping.map(|p| if op.get("wrong").and_then(|w| w.as_bool()).unwrap_or(false) { p.wrapping_add(1).max(1) } else { p }),
+          };
+          match (id, cl.stream.as_mut()) {
+            (Some(i), Some(s)) => {
+              let _ = s.write_all(format!("PONG id={}\n", i).as_bytes()).await;
+            },
+            _ => note = json!("no ping seen / closed"),
+          }
         }
       },
       "stall" => {
@@ -411,7 +442,7 @@ async fn run_history(c: &Value) -> Value {
       },
       _ => note = json!("unknown op"),
     }
-    let per = drain(&mut clients, settle).await;
+    let per = drain(&mut clients, if t == "until" { 0 } else { op.get("settle_ms").and_then(|v| v.as_u64()).unwrap_or(settle) }).await;
     // which connection tasks have ended, and did any panic
     let mut ended = serde_json::Map::new();
     let ks: Vec<u64> = tasks.keys().cloned().collect();
@@ -432,7 +463,8 @@ async fn run_history(c: &Value) -> Value {
       pk.sort();
       (l, st.inflight_peak, pk)
     };
-    results.push(json!({"conns": per, "mod": log, "ended": ended, "note": note, "mod_peak": peak, "parked": parked}));
+    let t_end = t0.elapsed().as_millis() as u64;
+    results.push(json!({"conns": per, "mod": log, "ended": ended, "note": note, "mod_peak": peak, "parked": parked, "t_start": t_start, "t_end": t_end}));
   }
   route_token.cancel();
   json!({"ops": results})
